@@ -233,7 +233,7 @@ func zzC06Serve(o *zzC06Out, h []string, qt string, mode func(name string) (m st
 		}
 
 		if kind == "local" {
-			e.IPs = o.IPs
+			e.IPs = zzC06Cur.concrete(o.IPs)
 		}
 	}
 
@@ -272,11 +272,73 @@ func zzC06NewConc(seed int64) (c *zzC06Conc) {
 	c.ips["v4b"] = fmt.Sprintf("198.51.100.%d", 101+rng.Intn(100))
 	c.ips["v6a"] = fmt.Sprintf("2001:db8::%x", 1+rng.Intn(0xfffe))
 	c.ips["v6b"] = fmt.Sprintf("2001:db8:1::%x", 1+rng.Intn(0xfffe))
-	for k, v := range c.ips {
-		c.rev[netip.MustParseAddr(v).String()] = k
-	}
+	zzC06RareAddrs(c.ips, rng)
+	zzC06Cur = c
 
 	return c
+}
+
+// zzC06RareAddrs completes the seeded choice of concrete addresses with the
+// rare but legal ones: "v6m" is always an IPv4-mapped IPv6 address (an AAAA
+// value: the family of an entry is that of the text written), and in some runs
+// "v6a" is the loopback or the unspecified address and "v4b" is 0.0.0.0.
+func zzC06RareAddrs(ips map[string]string, rng *rand.Rand) {
+	ips["v6m"] = fmt.Sprintf("::ffff:203.0.113.%d", 1+rng.Intn(200))
+	switch rng.Intn(4) {
+	case 1:
+		ips["v6a"] = "::1"
+	case 2:
+		ips["v6a"] = "::"
+	}
+
+	if rng.Intn(3) == 0 {
+		ips["v4b"] = "0.0.0.0"
+	}
+}
+
+// zzC06SpellIP writes an address in another legal spelling: IPv6 in upper-case
+// hex, in the full form without zero compression, or both; an IPv4-mapped
+// address with an upper-case prefix, a hexadecimal tail or an uncompressed
+// prefix.  IPv4 has only one spelling.
+func zzC06SpellIP(canonical string, variant int) (s string) {
+	a, err := netip.ParseAddr(canonical)
+	if err != nil || a.Is4() {
+		return canonical
+	}
+
+	if variant < 0 {
+		variant = -variant
+	}
+
+	s = canonical
+	switch {
+	case a.Is4In6():
+		b := a.As16()
+		switch variant % 4 {
+		case 1:
+			s = "::FFFF:" + a.Unmap().String()
+		case 2:
+			s = fmt.Sprintf("::ffff:%x:%x", uint16(b[12])<<8|uint16(b[13]), uint16(b[14])<<8|uint16(b[15]))
+		case 3:
+			s = "0:0:0:0:0:ffff:" + a.Unmap().String()
+		}
+	default:
+		switch variant % 4 {
+		case 1:
+			s = strings.ToUpper(canonical)
+		case 2:
+			s = a.StringExpanded()
+		case 3:
+			s = strings.ToUpper(a.StringExpanded())
+		}
+	}
+
+	if b, perr := netip.ParseAddr(s); perr != nil || b != a {
+		// Not a spelling of the same address after all.
+		return canonical
+	}
+
+	return s
 }
 
 func (c *zzC06Conc) ip(a string) (s string) {
@@ -287,13 +349,33 @@ func (c *zzC06Conc) ip(a string) (s string) {
 	return a
 }
 
+// abs is the canonical text of an observed address.  Observed and expected
+// addresses are compared in this form (see concrete): the abstract ids of the
+// vectors are made concrete, literal addresses (traces) stand for themselves.
 func (c *zzC06Conc) abs(a netip.Addr) (s string) {
-	if s, ok := c.rev[a.String()]; ok {
-		return s
-	}
-
 	return a.String()
 }
+
+// concrete maps expected addresses (abstract ids or literals) to canonical
+// concrete text, sorted.
+func (c *zzC06Conc) concrete(ips []string) (r []string) {
+	r = []string{}
+	for _, ip := range ips {
+		t := c.ip(ip)
+		if a, err := netip.ParseAddr(t); err == nil {
+			t = a.String()
+		}
+
+		r = append(r, t)
+	}
+
+	sort.Strings(r)
+
+	return r
+}
+
+// zzC06Cur is the concretisation of the running test (one per process).
+var zzC06Cur *zzC06Conc
 
 type zzC06RW struct {
 	Domain string `json:"domain"`
@@ -325,7 +407,7 @@ func (c *zzC06Conc) rewrite(e *zzC06Entry) (rw zzC06RW) {
 
 	switch e.K {
 	case "ip4", "ip6":
-		rw.Answer = c.ip(e.IP)
+		rw.Answer = zzC06SpellIP(c.ip(e.IP), e.DS)
 	case "A", "AAAA":
 		rw.Answer = e.K
 	default:
@@ -1050,8 +1132,8 @@ func zzC06Class(o *zzC06Out) (c string) {
 var (
 	zzC06BLabels = []string{"k", "m", "z", "srv", "n1", "dev", "p-q"}
 	zzC06BTLDs   = []string{"net", "lan", "io"}
-	zzC06BV4     = []string{"10.0.0.1", "10.0.0.2", "172.16.5.9", "203.0.113.200"}
-	zzC06BV6     = []string{"fd00::1", "fd00::2", "2001:db8:ffff::53"}
+	zzC06BV4     = []string{"10.0.0.1", "10.0.0.2", "172.16.5.9", "203.0.113.200", "0.0.0.0"}
+	zzC06BV6     = []string{"fd00::1", "fd00::2", "2001:db8:ffff::53", "::ffff:10.1.2.3", "::1", "::"}
 )
 
 func zzC06BPick(rng *rand.Rand, ss []string) (s string) { return ss[rng.Intn(len(ss))] }
@@ -1387,7 +1469,7 @@ func TestZZVerifC06PipeProbe(t *testing.T) {
 		for _, e := range in.Expect {
 			o := zzC06Obs{
 				Ask: [][2]string{}, Rcode: e.Rcode, QOK: true, CNAME: zzC06Name(e.CNAME),
-				FromUp: zzC06Name(e.FromUp), IPs: append([]string{}, e.IPs...),
+				FromUp: zzC06Name(e.FromUp), IPs: zzC06Cur.concrete(e.IPs),
 			}
 			sort.Strings(o.IPs)
 			for _, a := range e.Ask {
